@@ -38,13 +38,17 @@ theorem processPacket_flow (f : Flow) (p : Pkt) :
     (f.processPacket p).1.state = (f.updateState p).state ∧ (f.processPacket p).1.v6 = f.v6 ∧
     (f.processPacket p).1.dst = f.dst ∧ (f.processPacket p).1.dport = f.dport := by
   obtain ⟨h0, h1, h2, h3, _⟩ := pre_fields f p
-  unfold Flow.processPacket
-  simp only
-  split
-  · exact ⟨h0, h1, h2, h3⟩
-  · cases p.payload with
-    | none => exact ⟨h0, h1, h2, h3⟩
-    | some d => exact ⟨h0, h1, h2, h3⟩
+  by_cases hi : (f.pre p).ignoreData = true
+  · unfold Flow.processPacket
+    simp only [hi, if_true]
+    exact ⟨h0, h1, h2, h3⟩
+  · have hi : (f.pre p).ignoreData = false := by simpa using hi
+    cases hp : p.payload with
+    | none => rw [processPacket_none f p hp]; exact ⟨h0, h1, h2, h3⟩
+    | some d =>
+      rw [processPacket_some' f p d hi hp]
+      obtain ⟨a0, a1, a2, a3, _⟩ := afterOoo_fields (f.pre p) p _
+      exact ⟨a0.trans h0, a1.trans h1, a2.trans h2, a3.trans h3⟩
 
 /-! ### routing inside a stream -/
 
